@@ -230,10 +230,23 @@ fn apply<S: std::hash::BuildHasher + Clone>(c: &mut LruCache<u16, Val, S>, m: &m
                     check!(got.map($proj) == want.clone().map(|w| $proj((&w.0, &w.1))), "iterator kind {} step {} ({}) yielded the wrong item", kind, s, if front { "next" } else { "next_back" });
                 }
             }}; }
-            match kind % 3 {
+            match kind % 6 {
                 0 => word!(c.iter(), |(k, v): (&u16, &Val)| (*k, v.id)),
                 1 => word!(c.keys().map(|k| (k, &Val { heap: 0, id: 0 })).map(|(k, _)| (k, k)), |(k, _): (&u16, _)| (*k, 0u32)),
-                _ => word!(c.values().map(|v| (&0u16, v)), |(_, v): (&u16, &Val)| (0u16, v.id)),
+                2 => word!(c.values().map(|v| (&0u16, v)), |(_, v): (&u16, &Val)| (0u16, v.id)),
+                // owning iterators run on a clone (C14 makes the clone equal to the source)
+                3 => { let d = c.clone(); let mut it = d.into_iter();
+                    for s in 0..n { let front = (bits >> s) & 1 == 0; let got = if front { it.next() } else { it.next_back() };
+                        let want = if lo < hi { if front { lo += 1; Some(exp[lo - 1].clone()) } else { hi -= 1; Some(exp[hi].clone()) } } else { None };
+                        check!(got == want, "into_iter step {} ({}) yielded the wrong item", s, if front { "next" } else { "next_back" }); } }
+                4 => { let d = c.clone(); let mut it = d.into_keys();
+                    for s in 0..n { let front = (bits >> s) & 1 == 0; let got = if front { it.next() } else { it.next_back() };
+                        let want = if lo < hi { if front { lo += 1; Some(exp[lo - 1].0) } else { hi -= 1; Some(exp[hi].0) } } else { None };
+                        check!(got == want, "into_keys step {} ({}) yielded the wrong item", s, if front { "next" } else { "next_back" }); } }
+                _ => { let d = c.clone(); let mut it = d.into_values();
+                    for s in 0..n { let front = (bits >> s) & 1 == 0; let got = if front { it.next() } else { it.next_back() };
+                        let want = if lo < hi { if front { lo += 1; Some(exp[lo - 1].1.clone()) } else { hi -= 1; Some(exp[hi].1.clone()) } } else { None };
+                        check!(got == want, "into_values step {} ({}) yielded the wrong item", s, if front { "next" } else { "next_back" }); } }
             }
         }
         Op::Fill(start, n) => {
@@ -268,7 +281,7 @@ fn gen(rng: &mut Rng, focus: &str, e0: usize) -> (Vec<Op>, usize, usize, bool) {
         let heap = rng.below(12) as usize;
         let w = rng.below(100);
         let f = |names: &[&str]| names.iter().any(|x| focus.contains(x));
-        let op = if f(&["Iter", "Keys", "Values", "next"]) && w < 40 { Op::IterWord(rng.below(3) as u8, rng.next() as u16, rng.below(9) as u8)
+        let op = if f(&["Iter", "Keys", "Values", "next", "Drain", "Into"]) && w < 40 { Op::IterWord(rng.below(6) as u8, rng.next() as u16, rng.below(9) as u8)
         } else if f(&["shrink", "reserve", "capacity", "reallocate", "insert_unchecked"]) && w < 35 {
             match rng.below(5) { 0 => Op::ShrinkToFit, 1 => Op::ShrinkTo(rng.below(30) as usize), 2 => Op::Reserve(rng.below(30) as usize), 3 => Op::TryReserve(rng.below(30) as usize), _ => Op::Remove(100 + rng.below(40) as u16) }
         } else if f(&["mutate"]) && w < 35 { Op::Mutate(k, rng.below(40) as usize)
@@ -280,7 +293,7 @@ fn gen(rng: &mut Rng, focus: &str, e0: usize) -> (Vec<Op>, usize, usize, bool) {
                 11 => Op::Contains(k), 12 => Op::Touch(k), 13 => Op::Remove(k), 14 => Op::RemoveEntry(k), 15 => Op::RemoveLru, 16 => Op::RemoveMru,
                 17 => Op::GetLru, 18 => Op::PeekEnds, 19 => Op::SetMaxSize(rng.below((5 * (e0 + 8)) as u64) as usize), 20 | 21 => Op::Mutate(k, rng.below(40) as usize),
                 22 => match rng.below(4) { 0 => Op::Reserve(rng.below(10) as usize), 1 => Op::TryReserve(rng.below(10) as usize), 2 => Op::ShrinkTo(rng.below(10) as usize), _ => Op::ShrinkToFit },
-                23 => if rng.below(2) == 0 { Op::Retain(rng.next() as u16) } else { Op::IterWord(rng.below(3) as u8, rng.next() as u16, rng.below(9) as u8) }, 24 => if rng.below(2) == 0 { Op::CloneSwap } else { Op::Clear }, _ => Op::Drain(rng.below(3) as u8, rng.below(3) as u8),
+                23 => if rng.below(2) == 0 { Op::Retain(rng.next() as u16) } else { Op::IterWord(rng.below(6) as u8, rng.next() as u16, rng.below(9) as u8) }, 24 => if rng.below(2) == 0 { Op::CloneSwap } else { Op::Clear }, _ => Op::Drain(rng.below(3) as u8, rng.below(3) as u8),
             }
         };
         ops.push(op);
